@@ -37,6 +37,22 @@ def run_one(ck, prog):
     ctx = prog.ctx(sp)
     cfg = ctx.cfg
     unfinished = prog.const(T.M + "UNFINISHED")
+    # the exit word changes hands exactly once, and the kernel does it: nothing in the library stores to it after initialisation or wakes
+    # its waiters (a thread that clears the word itself lets join return - and free the block - while the thread is still running on it)
+    from ..engine.atomics import inventory as _inv
+    writers = []
+    wakers = []
+    for p6, f6 in prog.fns.items():
+        if "tiny_std::thread::spawn" not in p6:
+            continue
+        c6 = prog.ctx(f6)
+        for op in _inv(f6, c6.cfg, c6.prov):
+            if op.op != "load" and mentions(op.recv, c6.prov, lambda z: z[0] == "call" and (z[1] or "").endswith("Tsm::get_futex")):
+                writers.append((p6, op.op))
+        for bb6, t6 in c6.cfg.calls(lambda t: (t.get("callee") or "").endswith("futex::futex_wake")):
+            if mentions(c6.args(bb6)[0], c6.prov, lambda z: z[0] == "call" and (z[1] or "").endswith("Tsm::get_futex")):
+                wakers.append(p6)
+    ck.ob("C05.6", "exit-word-written-only-by-the-kernel", not writers and not wakers, detail=f"library code writes the exit word ({writers}) or wakes its waiters ({wakers}); only the kernel's CLONE_CHILD_CLEARTID write at thread exit may release a joiner")
     ck.ob("C05.6", "exit-word-constant", isinstance(unfinished, int) and unfinished != 0, detail=f"UNFINISHED = {unfinished}; must differ from 0 (the kernel clears the word to 0 on exit)")
 
     clones = T.call_blocks(ctx, T.M + "__clone")
